@@ -150,6 +150,19 @@ def c05_jobs(tier, seed):
     return j
 
 
+def c13_jobs(tier, seed):
+    q = tier == "quick"
+    s = 15 if q else 150
+    L = 5 if q else 6
+    j = []
+    for st in ("local", "shm"):
+        j += [Job("dbg", "w_cal", "c13 --part seq --storage %s --len %d --nshards 2 --shard %d" % (st, L, i), timeout=1200, engine="exhaustive-histories") for i in range(2)]
+        j += shards("dbg", "w_cal", "c13 --part conc --storage %s" % st, 3 if q else 4, s, seed, first=10 if st == "shm" else 0)
+    j += shards("rel", "w_cal", "c13 --part conc --storage local", 2, s, seed, first=30)
+    j += shards("tsan", "w_cal", "c13 --part conc --storage local --d1 100 --d2 10 --rand 10", 2, s, seed, first=40)
+    return j
+
+
 PROPS = {
     "C09": {
         "level": "exploration",
@@ -248,5 +261,13 @@ PROPS = {
         "rule": "port level (Notifier/Listener over local and ipc services, ids 0-2, 1-3 notifier threads): short rounds in which every notifier fires a burst and parks while the listener mixes try_wait / timed_wait; after every round (all notifiers parked between calls) a quiescent probe runs whenever something is undelivered: timed_wait(1 s) must deliver and must not have slept >= 0.9 s. Every execution runs with the hook off, under each sampled depth-1 stall plan (stall before/after every hooked atomic operation of listener and notifiers, m in {1,2,4,10,all}), sampled depth-2 plans and random delays (debug, release, TSan). Log rules: no phantom id, deliveries <= started notifications on every prefix, every successful notification followed by a delivery of its id, quiescent wake-up probe. Non-trivial = an execution in which events were delivered or a probe ran; distinct = distinct (config, interleaving signature, delivered sequence).",
         "assumptions": COMMON_ASSUMPTIONS + ["unbounded 'eventually' is restated as the quiescent probe: no notify in flight, undelivered id exists, wait must not sleep; the 0.9 s threshold is 5-6 orders of magnitude above the expected latency and a firing watchdog alone is never a verdict without the pending-id witness", "event implementations reached: process-local and unix-datagram/socket based ones selected by local/ipc services"],
         "floor": (150, 50),
+    },
+    "C13": {
+        "level": "exploration",
+        "jobs": c13_jobs,
+        "exhaustive": lambda tier: True,
+        "rule": "zero_copy_connection over process-local storage and POSIX shared memory. Sequential: ALL histories up to length 5 (quick) / 6 (thorough) over {attach sender, attach receiver, detach sender, detach receiver, forced removal of the sender / receiver role of a leaked (dead) handle, attach with a mismatching buffer size} against a model of the registered roles: second attach of a role refused, existence == some role registered, token sent by the attached sender arrives at the attached receiver, mismatching attach refused with the documented error without disturbing the pair, no residue. Concurrent: 2-3 threads attach/detach random roles on one name under hook off / depth-1 stall plans / depth-2 / random delays (debug, release, TSan): holding intervals of one role never overlap, does_exist sampled inside every holding interval is true, after the last detach false, only documented attach errors. Non-trivial = a history of maximal length / an execution in which attach calls overlapped in time; exhaustive=true refers to the sequential box.",
+        "assumptions": COMMON_ASSUMPTIONS + ["a forced removal is only issued for a role whose handle is leaked (its owner is dead), as the contract requires"],
+        "floor": (2000, 50),
     },
 }
